@@ -211,6 +211,14 @@ def rule_sibling_fill(prog, C, rule="R-C03-b"):
                                     continue
                                 got = scalarise(erase_R(xc), cx)
                                 wit = None
+                                # which rows are reduced: the cell's rows when there are coordinates, all rows otherwise
+                                want_R = "CELL" if co else "ALL"
+                                rs = _row_ranges(xc)
+                                if rs - {want_R}:
+                                    C.add(rule, VIOLATED, where, cons + ": reduces the cell's own rows", "the stored value is reduced over %s rows where %s" % (
+                                        "ALL" if "ALL" in rs - {want_R} else sorted(rs - {want_R})[0], "only the rows of the cell may take part (the row selection `[rowmask]` is missing)" if co else "all rows form the single cell"),
+                                        {"inputs": "xcube over one dimension with two categories and %s: every cell holds the grand total" % branch})
+                                    continue
                                 if got != ref:
                                     wit = {"inputs": "xcube and ccube over the same data with %s, weights=%s" % (branch, w)}
                                     if name == "mean" and nd == 2:
@@ -220,6 +228,21 @@ def rule_sibling_fill(prog, C, rule="R-C03-b"):
                                 C.ok(got == ref, rule, where, cons, show_lin(got),
                                      "array cube stores %s where the index cube stores %s" % (show_lin(got), show_lin(ref)), wit)
     return n
+
+
+def _row_ranges(lin):
+    """The row ranges (ALL / CELL) the reducers of a linear form run over."""
+    out = set()
+
+    def walk(k):
+        if isinstance(k, tuple):
+            if k and k[0] in ("SUM", "COUNT", "SIZE") and len(k) >= 2 and k[1] in ("ALL", "CELL"):
+                out.add(k[1])
+            for x in k:
+                walk(x)
+    for k in lin:
+        walk(k)
+    return out
 
 
 # ------------------------------------------------------------------------------ C04
